@@ -8,7 +8,7 @@
     Abort state machine: TB/Probe.v (tied to TranspositionTable::updateTB by op-sequence
     correspondence). *)
 From Coq Require Import List ZArith Bool.
-From Texel Require Import TB.DtmCert TB.MiniChess TB.Checker TB.CheckerProofs TB.Probe.
+From Texel Require Import TB.DtmCert TB.MiniChess TB.MiniChessFacts TB.Checker TB.CheckerProofs TB.Probe.
 Import ListNotations.
 
 (** For ANY game graph (no bound on its size): a labelling that satisfies the local
@@ -39,6 +39,15 @@ Theorem C12_check_table_sound :
       (T (digits_of p) (wtm p) = TL Draw <-> drawn (moves cls) (in_check cls) p).
 Proof. intros cls T H. exact (proj1 (check_table_sound cls T H)). Qed.
 Print Assumptions C12_check_table_sound.
+
+(** The specification's move generator maps legal positions of a class to legal positions of
+    the class (same men, on the board, no two on one square, kings never captured, mover not in
+    check): the closure hypothesis of the certificate for the chess game, proved, not assumed. *)
+Theorem C12_rules_closed :
+  forall (cls : list man) (p c : pos),
+    legalb cls p = true -> In c (moves cls p) -> legalb cls c = true.
+Proof. exact moves_preserve_legal. Qed.
+Print Assumptions C12_rules_closed.
 
 (** Scope of the probe inside the class: a well-formed placement that is not a legal position
     (the side not to move is in check: "the king can be taken", which includes adjacent kings)
